@@ -28,6 +28,10 @@ fn maps() -> Vec<Beatmap> {
         MapSpec::new(0, hits.clone()).decode(),
         MapSpec::new(1, hits.clone()).decode(),
         MapSpec::new(3, vec![o(Kind::Circle, 0, PosK::Same, 0, 0), o(Kind::Hold(300), 150, PosK::Same, 0, 2), o(Kind::Circle, 100, PosK::Same, 0, 1), o(Kind::Hold(100), 100, PosK::Same, 0, 0), o(Kind::Circle, 90, PosK::Same, 0, 2)]).decode(),
+        // #3: taiko, long, with a rim / centre pattern unlike #1 (mono streaks of other lengths)
+        MapSpec::new(1, (0..40).map(|i| o(Kind::Circle, if i % 7 == 0 { 240 } else { 110 }, PosK::Far, if (i / 3) % 2 == 0 { 0 } else { 2 }, 0)).collect()).decode(),
+        // #4: taiko, long, alternating colours
+        MapSpec::new(1, (0..40).map(|i| o(Kind::Circle, 125, PosK::Far, if i % 2 == 0 { 8 } else { 0 }, 0)).collect()).decode(),
     ]
 }
 
@@ -148,6 +152,7 @@ fn walkers(maps: &[Beatmap]) -> Vec<(&'static str, Box<dyn Fn() -> Box<dyn Walk>
         use rosu_pp::{taiko::TaikoGradualDifficulty, GradualDifficulty, GradualPerformance};
         v.push(("TaikoGradualDifficulty [sync]", Box::new(|| Box::new(W(TaikoGradualDifficulty::new(Difficulty::new().mods(settings::DT), &maps[1]).expect("taiko"), |g: &mut TaikoGradualDifficulty| format!("{:?}", g.next()))))));
         v.push(("TaikoGradualDifficulty(convert, Random) [sync]", Box::new(|| Box::new(W(TaikoGradualDifficulty::new(ModSpec::Random(Some(5.0)).build(gen::game_mode(1)).pipe_difficulty(), &maps[0]).expect("taiko"), |g: &mut TaikoGradualDifficulty| format!("{:?}", g.next()))))));
+        v.push(("TaikoGradualDifficulty(40 hits) [sync]", Box::new(|| Box::new(W(TaikoGradualDifficulty::new(Difficulty::new(), &maps[3]).expect("taiko"), |g: &mut TaikoGradualDifficulty| format!("{:?}", g.next()))))));
         v.push(("GradualDifficulty(any, taiko) [sync]", Box::new(|| Box::new(W(GradualDifficulty::new(Difficulty::new(), &maps[1]), |g: &mut GradualDifficulty| format!("{:?}", g.next()))))));
         v.push(("GradualPerformance(any, taiko) [sync]", Box::new(move || Box::new(W(GradualPerformance::new(Difficulty::new(), &maps[1]), move |g: &mut GradualPerformance| format!("{:?}", g.next(st())))))));
     }
@@ -278,10 +283,18 @@ fn main() {
             let mut w = mk();
             (0..n_steps).map(|_| w.step()).collect()
         };
-        let seqs = all_sequences(3, n_steps + 1); // + the thread that drops it
-        // busy = every thread also owns a private taiko calculator on another map which it advances by one step each time
-        // it gets the baton, before touching the shared one (per-thread state keyed by position would show here)
-        let name = format!("B-handover{}/{wname}/3^{}", if busy { "-busy-threads" } else { "" }, n_steps + 1);
+        // plain variant: all 3^(n+1) ownership sequences (+ the thread that drops it). busy variant: the calculator is a long
+        // taiko walk (32 steps) and the ownership pattern of length n+1 is repeated cyclically
+        let n_steps = if busy { 32 } else { n_steps };
+        let pat_len = ctx.pick(4usize, 5) + 1;
+        let reference: Vec<String> = if busy {
+            let mut w = mk();
+            (0..n_steps).map(|_| w.step()).collect()
+        } else {
+            reference
+        };
+        let seqs: Vec<Vec<u8>> = if busy { all_sequences(3, pat_len).into_iter().map(|p| (0..=n_steps).map(|i| p[i % p.len()]).collect()).collect() } else { all_sequences(3, n_steps + 1) };
+        let name = format!("B-handover{}/{wname}/3^{}", if busy { "-busy-threads-32-steps" } else { "" }, pat_len);
         let _ = wi;
         ctx.universe_isolated(&name, seqs.len() as u64, 20.0, 2048, |idx, l: &mut Local<'_>| {
             let seq = &seqs[idx as usize];
@@ -299,7 +312,7 @@ fn main() {
             // step 0 is executed by seq[0] which also creates the calculator; the last entry only drops it
             let slot: Mutex<Option<Box<dyn Walk>>> = Mutex::new(None);
             let done = std::sync::atomic::AtomicUsize::new(0);
-            let private_map = if wname.contains("convert") { &world.maps[1] } else { &world.maps[0] };
+            let private_map = &world.maps[4];
             let r = baton::run_schedule_with(3, seq, |_| if busy { rosu_pp::taiko::TaikoGradualDifficulty::new(Difficulty::new(), private_map).ok() } else { None }, |_tid, _, private| {
                 if let Some(p) = private.as_mut() {
                     let _ = p.next();
